@@ -1099,7 +1099,7 @@ func (x *ctx) correspond(sc Scenario, si int, st Step, ses *session, f, l []byte
 // ---- driver ----
 
 func runC06(r *hx.Result, cfg hx.Config) {
-	r.Rule = "one evaluation = one (scenario, step): a fault from {FOLLOW, follower restart by SIGKILL / SIGTERM, dropped replication connections, leader AOFSHRINK, follower SIGSTOP/SIGCONT, dropped connections followed by a reconnect that the proxy holds or refuses at a stage of the handshake (dial, refused, SERVER, AOFMD5, REPLCONF, AOF) while HEALTHZ / caught_up are sampled} with leader writes acknowledged during it, on a real leader/follower pair whose initial follower is empty / a true record-boundary prefix of the leader's log / unrelated data (thorough: also above 512 KiB, a diverged copy and a copy differing in a middle block); after each step the direct oracles (premature caught-up while the stream is held, convergence of dumps and aof_size) and the model correspondence of the resume decision are evaluated. Followers run with a log or with --appendonly no (init empty / unrelated; aof_size must stay 0); fault offline-shrink = the follower's redials are refused while the leader acknowledges writes and completes AOFSHRINK. Follow generations: a reconnect attempt of the previous generation is held by the proxy inside its handshake (dial, SERVER, AOF) while FOLLOW to another leader is accepted and completed, then released (the follower must stay a copy of its current leader; model Model/FollowGen.v, correspondence on whether the stale attempt still sends AOF); leader AOFSHRINK between a follower's followCheckSome and its AOF command. non-trivial = the leader history up to that step contains at least one accepted write."
+	r.Rule = "one evaluation = one (scenario, step): a fault from {FOLLOW, follower restart by SIGKILL / SIGTERM, dropped replication connections, leader AOFSHRINK, follower SIGSTOP/SIGCONT, dropped connections followed by a reconnect that the proxy holds or refuses at a stage of the handshake (dial, refused, SERVER, AOFMD5, REPLCONF, AOF) while HEALTHZ / caught_up are sampled} with leader writes acknowledged during it, on a real leader/follower pair whose initial follower is empty / a true record-boundary prefix of the leader's log / unrelated data (thorough: also above 512 KiB, a diverged copy and a copy differing in a middle block); after each step the direct oracles (premature caught-up while the stream is held, convergence of dumps and aof_size) and the model correspondence of the resume decision are evaluated. Followers run with a log or with --appendonly no (init empty / unrelated; aof_size must stay 0); fault offline-shrink = the follower's redials are refused while the leader acknowledges writes and completes AOFSHRINK. Follow generations: a reconnect attempt of the previous generation is held by the proxy inside its handshake (dial, SERVER, AOF) while FOLLOW to another leader is accepted and completed, then released (the follower must stay a copy of its current leader; model Model/FollowGen.v, correspondence on whether the stale attempt still sends AOF); leader AOFSHRINK between a follower's followCheckSome and its AOF command. Follower over its own maxmemory (CONFIG SET maxmemory 1kb) while the leader acknowledges SET/FSET/DEL, then the limit is lifted: no claim of caught-up with a differing dataset, convergence afterwards (model Model/FollowTol.v: errOOM of a streamed command fails the attempt). non-trivial = the leader history up to that step contains at least one accepted write."
 	r.Assumptions = []string{"MD5 collision-freeness on equal-length blocks (model hypothesis md5_inj)", "the proxy relays bytes unchanged; the probe sequence and AOF position are read off the wire",
 		"no object or hook deadline elapses during a scenario (EX 5000 only), so the follower's own expiry sweeper writes nothing"}
 	x := &ctx{r: r, cfg: cfg}
@@ -1165,6 +1165,8 @@ func runC06(r *hx.Result, cfg hx.Config) {
 		func() { x.runStaleGeneration(filepath.Join(cfg.Work, "stale-server-noaof"), "server", true) },
 		func() { x.runStaleFlag(filepath.Join(cfg.Work, "stale-flag")) },
 		func() { x.runCheckThenShrink(filepath.Join(cfg.Work, "check-shrink")) },
+		func() { x.runFollowerOOM(filepath.Join(cfg.Work, "follower-oom"), false) },
+		func() { x.runFollowerOOM(filepath.Join(cfg.Work, "follower-oom-noaof"), true) },
 	} {
 		wg.Add(1)
 		go func(g func()) { defer wg.Done(); g() }(g)
